@@ -46,6 +46,11 @@
 (*   "CheckThenRegister" a presentation looks the random up, decrypts, and *)
 (*                       registers afterwards and only if it authenticated *)
 (*                       (Lookup / Finish are two steps)                   *)
+(*   "ForgetWhenFull"    registerRandom bounds the cache: a new random     *)
+(*                       arriving at a cache of Cap entries makes it start *)
+(*                       over empty (any capacity-triggered forgetting);   *)
+(*                       Foreign = somebody else's parsable first packet   *)
+(*                       (costs its sender nothing, needs no keys)         *)
 (* Dev = {} is the code-faithful model of HEAD: canonical key (bit 255     *)
 (* cleared), entry kept while  stored >= now - R  with R = 2W (the code    *)
 (* keeps 2*tolerance + 1 s).                                               *)
@@ -60,7 +65,9 @@ CONSTANTS
   MaxPresent, \* bound on presentations
   MaxClean,   \* bound on clean-ups
   MaxSkew,    \* client clock skew, ticks (-MaxSkew..MaxSkew); W-1 in the replayed histories, W is checked too
-  Dev         \* set of deviation flags, see above
+  Dev,        \* set of deviation flags, see above
+  Cap,        \* "ForgetWhenFull": capacity of the cache, entries
+  MaxForeign  \* bound on foreign first packets (0: none)
 
 Blocks   == 1..NPackets
 Variants == {"same", "bit255"}
@@ -75,11 +82,14 @@ VARIABLES
   accepts,   \* Blocks -> number of presentations that authenticated (err = nil)
   sweep,     \* the cleaner: [ph : idle | walk | gap, todo : entries still to decide, surv : copy being built]
   pend,      \* presentations between their look-up and their registration ("CheckThenRegister" only)
+  nf,        \* foreign randoms in the cache (never presented twice, they only take room)
+  nForeign,  \* foreign first packets so far
   nPresent, nClean,
   last       \* observation of the last step (what the caller of the code sees)
 
-vars == <<now, cache, issued, accepts, sweep, pend, nPresent, nClean, last>>
-View == <<now, cache, issued, accepts, sweep, pend, nPresent, nClean>>   \* `last` is an output, not state (cfg: VIEW)
+vars == <<now, cache, issued, accepts, sweep, pend, nf, nForeign, nPresent, nClean, last>>
+View == <<now, cache, issued, accepts, sweep, pend, nf, nForeign, nPresent, nClean>>
+fvars == <<nf, nForeign>>   \* `last` is an output, not state (cfg: VIEW)
 
 SnapSwap == "CleanerSnapshotSwap" \in Dev
 TwoStep  == "CheckThenRegister" \in Dev
@@ -104,7 +114,12 @@ Idle  == [ph |-> "idle", todo |-> {}, surv |-> Empty]
 WFree == sweep.ph \in {"idle", "gap"}                \* a writer (registerRandom) can get in
 RFree == WFree \/ (SnapSwap /\ sweep.ph = "walk")    \* a reader can get in
 
+\* "ForgetWhenFull": the map is replaced by an empty one when a NEW random meets a full cache
+Full == "ForgetWhenFull" \in Dev /\ Entries(cache) + nf >= Cap
+
 Init ==
+  /\ nf = 0
+  /\ nForeign = 0
   /\ now = 0
   /\ cache = Empty
   /\ issued = [b \in Blocks |-> None]
@@ -121,7 +136,7 @@ Issue(b, skew) ==
   /\ \A c \in Blocks : c < b => issued[c] # None
   /\ issued' = [issued EXCEPT ![b] = now + skew]
   /\ last' = [NoObs EXCEPT !.a = "Issue", !.b = b, !.k = skew, !.t = now, !.nc = Entries(cache)]
-  /\ UNCHANGED <<now, cache, accepts, sweep, pend, nPresent, nClean>>
+  /\ UNCHANGED <<now, cache, accepts, sweep, pend, nPresent, nClean, nf, nForeign>>
 
 \* AuthFirstPacket on the captured packet (v = "same") or on an altered copy carrying the same block:
 \* one critical section, linearised where registerRandom holds usedRandomM
@@ -134,13 +149,25 @@ Present(b, v) ==
          used == cache[key] # None               \* registerRandom: _, used := UsedRandom[r]
          inw  == InWindow(issued[b])             \* decryptClientInfo, reached only if ~used
          ok   == ~used /\ inw
-     IN /\ cache' = [cache EXCEPT ![key] = now]  \* UsedRandom[r] = Now().Unix(), unconditionally
+     IN /\ IF ~used /\ Full
+             THEN cache' = [Empty EXCEPT ![key] = now] /\ nf' = 0
+             ELSE cache' = [cache EXCEPT ![key] = now] /\ nf' = nf  \* UsedRandom[r] = Now().Unix(), unconditionally
         /\ accepts' = [accepts EXCEPT ![b] = @ + (IF ok THEN 1 ELSE 0)]
         /\ last' = [NoObs EXCEPT !.a = "Present", !.b = b, !.v = v, !.ok = ok, !.t = now,
                                  !.why = IF used THEN "replay" ELSE IF inw THEN "ok" ELSE "window",
                                  !.nc = Entries(cache')]
   /\ nPresent' = nPresent + 1
-  /\ UNCHANGED <<now, issued, sweep, pend, nClean>>
+  /\ UNCHANGED <<now, issued, sweep, pend, nClean, nForeign>>
+
+\* a parsable first packet of somebody else (a browser, a scanner, a flood): registerRandom with a random of its own
+Foreign ==
+  /\ ~TwoStep
+  /\ WFree
+  /\ nForeign < MaxForeign
+  /\ nForeign' = nForeign + 1
+  /\ IF Full THEN cache' = Empty /\ nf' = 1 ELSE cache' = cache /\ nf' = nf + 1
+  /\ last' = [NoObs EXCEPT !.a = "Foreign", !.t = now, !.nc = Entries(cache')]
+  /\ UNCHANGED <<now, issued, accepts, sweep, pend, nPresent, nClean>>
 
 \* deviation "CheckThenRegister": look-up under the read lock ...
 Lookup(b, v) ==
@@ -152,7 +179,7 @@ Lookup(b, v) ==
   /\ pend' = pend \cup {[id |-> nPresent, b |-> b, v |-> v, used |-> cache[CacheKey(b, v)] # None]}
   /\ nPresent' = nPresent + 1
   /\ last' = [NoObs EXCEPT !.a = "Lookup", !.b = b, !.v = v, !.t = now, !.nc = Entries(cache)]
-  /\ UNCHANGED <<now, cache, issued, accepts, sweep, nClean>>
+  /\ UNCHANGED <<now, cache, issued, accepts, sweep, nClean, nf, nForeign>>
 
 \* ... decrypt, and register afterwards, only what authenticated
 Finish(e) ==
@@ -167,7 +194,7 @@ Finish(e) ==
                                  !.why = IF e.used THEN "replay" ELSE IF inw THEN "ok" ELSE "window",
                                  !.nc = Entries(cache')]
   /\ pend' = pend \ {e}
-  /\ UNCHANGED <<now, issued, sweep, nPresent, nClean>>
+  /\ UNCHANGED <<now, issued, sweep, nPresent, nClean, nf, nForeign>>
 
 \* UsedRandomCleaner wakes up and takes the lock
 CleanBegin ==
@@ -176,7 +203,7 @@ CleanBegin ==
   /\ sweep' = [ph |-> "walk", todo |-> {key \in RawKeys : cache[key] # None}, surv |-> Empty]
   /\ nClean' = nClean + 1
   /\ last' = [NoObs EXCEPT !.a = "CleanBegin", !.t = now, !.nc = Entries(cache)]
-  /\ UNCHANGED <<now, cache, issued, accepts, pend, nPresent>>
+  /\ UNCHANGED <<now, cache, issued, accepts, pend, nPresent, nf, nForeign>>
 
 \* the decision about one entry, with the clock of that moment (map order is arbitrary)
 CleanVisit(key) ==
@@ -189,7 +216,7 @@ CleanVisit(key) ==
        ELSE /\ sweep' = [sweep EXCEPT !.todo = @ \ {key}]
             /\ cache' = [cache EXCEPT ![key] = IF Evict(@) THEN None ELSE @]
   /\ last' = [NoObs EXCEPT !.a = "CleanVisit", !.b = key[1], !.v = key[2], !.t = now, !.nc = Entries(cache')]
-  /\ UNCHANGED <<now, issued, accepts, pend, nPresent, nClean>>
+  /\ UNCHANGED <<now, issued, accepts, pend, nPresent, nClean, nf, nForeign>>
 
 \* the lock is released (HEAD: the sweep is over; "CleanerSnapshotSwap": only the read lock, the copy is not in yet)
 CleanEnd ==
@@ -197,7 +224,7 @@ CleanEnd ==
   /\ sweep.todo = {}
   /\ sweep' = IF SnapSwap THEN [sweep EXCEPT !.ph = "gap"] ELSE Idle
   /\ last' = [NoObs EXCEPT !.a = "CleanEnd", !.t = now, !.nc = Entries(cache)]
-  /\ UNCHANGED <<now, cache, issued, accepts, pend, nPresent, nClean>>
+  /\ UNCHANGED <<now, cache, issued, accepts, pend, nPresent, nClean, nf, nForeign>>
 
 \* "CleanerSnapshotSwap": sta.UsedRandom = survivors
 CleanSwap ==
@@ -205,7 +232,7 @@ CleanSwap ==
   /\ cache' = sweep.surv
   /\ sweep' = Idle
   /\ last' = [NoObs EXCEPT !.a = "CleanSwap", !.t = now, !.nc = Entries(cache')]
-  /\ UNCHANGED <<now, issued, accepts, pend, nPresent, nClean>>
+  /\ UNCHANGED <<now, issued, accepts, pend, nPresent, nClean, nf, nForeign>>
 
 \* a whole sweep without anything in between (all decisions with one clock value): what the generator uses
 \* where the interleaving inside the sweep is not of interest.  Not part of Next: it is CleanBegin,
@@ -217,13 +244,13 @@ Clean ==
   /\ cache' = [key \in RawKeys |-> IF cache[key] # None /\ Evict(cache[key]) THEN None ELSE cache[key]]
   /\ nClean' = nClean + 1
   /\ last' = [NoObs EXCEPT !.a = "Clean", !.t = now, !.nc = Entries(cache')]
-  /\ UNCHANGED <<now, issued, accepts, sweep, pend, nPresent>>
+  /\ UNCHANGED <<now, issued, accepts, sweep, pend, nPresent, nf, nForeign>>
 
 Tick ==
   /\ now < Horizon
   /\ now' = now + 1
   /\ last' = [NoObs EXCEPT !.a = "Tick", !.t = now + 1, !.nc = Entries(cache)]
-  /\ UNCHANGED <<cache, issued, accepts, sweep, pend, nPresent, nClean>>
+  /\ UNCHANGED <<cache, issued, accepts, sweep, pend, nPresent, nClean, nf, nForeign>>
 
 Next == \/ \E b \in Blocks, s \in Skews : Issue(b, s)
         \/ \E b \in Blocks, v \in Variants : Present(b, v) \/ Lookup(b, v)
@@ -232,6 +259,7 @@ Next == \/ \E b \in Blocks, s \in Skews : Issue(b, s)
         \/ \E key \in RawKeys : CleanVisit(key)
         \/ CleanEnd
         \/ CleanSwap
+        \/ Foreign
         \/ Tick
 
 Spec == Init /\ [][Next]_vars
@@ -254,4 +282,5 @@ TypeOK ==
   /\ nPresent \in 0..MaxPresent /\ nClean \in 0..MaxClean
   /\ sweep.ph \in {"idle", "walk", "gap"} /\ sweep.todo \subseteq RawKeys
   /\ Cardinality(pend) <= 2
+  /\ nf \in 0..MaxForeign /\ nForeign \in 0..MaxForeign
 =============================================================================
